@@ -13,7 +13,9 @@ def merge():
     for f in sorted((ROOT / "known_findings.d").glob("*.json")):
         d = json.loads(f.read_text())
         out["open"] += d.get("open", [])
-        out["fixed"] += d.get("fixed", [])
+        for e in d.get("fixed", []):
+            e.setdefault("line", "fixed: property=%s %s %s" % (e["property"], e.get("commit", "?"), e["what"]))
+            out["fixed"].append(e)
     (ROOT / "known_findings.json").write_text(json.dumps(out, indent=1) + "\n")
     return out
 
